@@ -14,4 +14,4 @@ for k in 0 1 2; do
   ( i=0; for n in "${names[@]}"; do if [ $(( i % 3 )) -eq $k ]; then run_one $n; fi; i=$((i+1)); done ) &
 done
 wait
-echo "CURATION DONE" >> seeded/curation.log
+echo "CURATION DONE${NOSUITE:+ (detection pass)}" >> seeded/curation.log
